@@ -9,6 +9,7 @@ def rules_for(prog, res):
     c03.run_a_functions(prog, res, prop="C09", units=("simplify.c",))
     c09.run_b(prog, res)
     c09.run_c(prog, res)
+    c09.run_d(prog, res)
 
 
 def run(res, tier, replay=None):
@@ -20,7 +21,8 @@ def run(res, tier, replay=None):
         "C09 structural clauses on the simplification pass: (a) simplify and usedp (which decides rest-parameter elision) "
         "visit every sub-AST field of the node types they dispatch on; (b) kind-set dataflow: the literal replacing a folded "
         "application is built only where the fold result cannot be an exception, and the fold uses sexp_apply_no_err_handler; "
-        "(c) the push onto the substitution list is dominated by the `not assigned` (memq name sv == #f) edge. Not decided: "
+        "(c) the push onto the substitution list is dominated by the `not assigned` (memq name sv == #f) edge; (d) taint: neither a value unwrapped from a literal node nor a result of the unchecked fixnum macros reaches "
+        "an AST slot or the returned AST - the simplifier folds through the VM only and keeps quoted data wrapped. Not decided: "
         "equality of results across builds as such; the portable 128-bit arithmetic (numerical).")
     if tier == "thorough":
         common.thorough_mutations(res, "C09", {
@@ -28,4 +30,5 @@ def run(res, tier, replay=None):
                                    c03.run_a_functions(p, r, prop="C09", units=("simplify.c",))),
             "C09.b": lambda p, r: c09.run_b(p, r),
             "C09.c": lambda p, r: c09.run_c(p, r),
+            "C09.d": lambda p, r: c09.run_d(p, r, floor=0),
         })
